@@ -20,9 +20,13 @@ is executed piecewise:
 * `delete i`   the real `delete_calls`, the iteration is over;
 * `crash i`    the baton thread is destroyed, the instance is dead.
 
-`scheduleBad` schedules a call whose target cannot be imported: the real `_prepare_calls` raises
-ImportError out of `_process_delayed_calls` after `_capture_calls` committed (expected exactly then;
-the batch stays processing=True, nothing is invoked or deleted, the instance stays alive).
+`scheduleBad` schedules a call whose target cannot be imported.  With patch 17 the real
+`_prepare_calls` logs and skips it: the observed phase after `capture i` is ['busy', ids, todo] with
+ids = every captured ordinal and todo = the captured GOOD ones not yet invoked (what the real
+`_invoke_calls` got), `delete i` deletes all of ids.  Without the patch `_prepare_calls` raises
+ImportError out of `_process_delayed_calls` after `_capture_calls` committed: the iteration ends
+with an exception (an unexpected end like any other: the observation differs from the model, the
+batch is remembered in `LWorld.aborted` for the classification of never-run calls).
 
 In `capture i` the stashed answer of the select is put into the session of the capture
 transaction with `session.merge(obj, load=False)` (no store access): oslo.db `update_on_match`
@@ -36,7 +40,9 @@ uncommitted transaction is never captured or invoked; invoked at most once (unco
 there is no recapture); captured at most once; a committed call is never lost from the store
 before it ran; has_scheduled_jobs(key, processing=False) is exactly "a pending row with that key
 exists"; and (closing phase) every committed call is eventually invoked while a live instance keeps
-polling.
+polling.  A call whose target cannot be imported is exempt from "lost" / "at least once" (it is
+logged and dropped), must never be invoked, and must be gone from the store once a live instance
+that captured it has finished its iteration.
 """
 import collections
 import datetime
@@ -51,6 +57,7 @@ RKEY = {'k1': 1, 'k2': 2, 'k3': 3}
 PROCS = (None, False, True)
 CRASH_SIG = {'kind': 'legacy-captured-call-never-run', 'cause': 'capturer-crashed'}
 ABORT_SIG = {'kind': 'legacy-captured-call-never-run', 'cause': 'batch-aborted-by-unpreparable-call'}
+STUCK_SIG = {'kind': 'legacy-unpreparable-call-never-removed'}
 BAD_FUNC = 'no_such_function'
 
 
@@ -62,7 +69,8 @@ class LInst(object):
         self.sel = None        # stashed answer of the select (list of DelayedCall objects)
         self.actor = None      # the running iteration (parked at 'invoke' or 'delete')
         self.ids = []          # ordinals captured by the running iteration, in order
-        self.done = 0          # how many of them have been invoked
+        self.good = []         # those of them whose target can be imported (what _invoke_calls gets)
+        self.done = 0          # how many of `good` have been invoked
         self.at = None         # ordinal the parked target call is about
 
 
@@ -85,7 +93,8 @@ class LWorld(object):
         self.hidden = {}         # ordinal -> column values of a committed, not yet visible row
         self.log = []            # ['invoked', j, clock, inst]
         self.caps = []           # ['captured', j, clock, inst]
-        self.aborted = []        # [ids] of every batch whose _prepare_calls raised (un-importable target)
+        self.aborted = []        # [ids] of every captured batch whose iteration ended with an exception
+        #                          before delete_calls (e.g. an unpatched _prepare_calls raising)
         self.stats = collections.Counter()
         self.problems = []
         self.insts = []
@@ -121,6 +130,9 @@ class LWorld(object):
         if mod is not None and getattr(mod, 'world', None) is self:
             mod.world = None
 
+    def is_bad(self, j):
+        return 0 <= j < len(self.jobs) and bool(self.jobs[j]['bad'])
+
     def ordinal(self, call):
         o = self.ids.get(getattr(call, 'id', None))
         if o is None:
@@ -140,7 +152,10 @@ class LWorld(object):
             calls = real_capture(batch_size)
             ids = [w.ordinal(c) for c in calls]
             inst.ids = ids
+            inst.good = [j for j in ids if not w.is_bad(j)]
             inst.done = 0
+            if len(inst.good) < len(ids):
+                w.stats['batch-with-unpreparable-call'] += 1
             for j in ids:
                 w.caps.append(['captured', j, w.clock, inst.idx])
             if inst.sel is not None:
@@ -264,7 +279,7 @@ class LWorld(object):
             self.problems.append('_process_delayed_calls did not query the store')
             got['calls'] = []
         inst.sel = list(got['calls'])
-        inst.ids, inst.done = [], 0
+        inst.ids, inst.good, inst.done = [], [], 0
 
     def sel_ids(self, inst):
         return [self.ordinal(c) for c in inst.sel]
@@ -293,7 +308,7 @@ class LWorld(object):
             return
         stash = inst.sel
         real = db_api.get_delayed_calls_to_start
-        inst.ids, inst.done, inst.at = [], 0, None
+        inst.ids, inst.good, inst.done, inst.at = [], [], 0, None
         a = sd.Actor(inst.sched._process_delayed_calls, inst, False)
 
         def stale(*x, **k):
@@ -317,17 +332,20 @@ class LWorld(object):
     def _after(self, inst):
         a = inst.actor
         if a is not None and a.state == 'done':
-            bad = [j for j in inst.ids if 0 <= j < len(self.jobs) and self.jobs[j]['bad']]
-            if isinstance(a.exc, ImportError) and bad and inst.done == 0 and a.label is None:
-                # `_prepare_calls` raised out of `_process_delayed_calls` (the real loop logs it and
-                # goes on): nothing of the batch was invoked, nothing deleted
-                self.aborted.append(list(inst.ids))
-                self.stats['batch-aborted'] += 1
-            elif a.exc is not None:
+            if a.exc is not None:
+                # never expected (the real loop would log it and go on); the model has no such end:
+                # the observation differs as well
+                if inst.ids and a.label != 'delete':
+                    self.aborted.append(list(inst.ids))
+                    self.stats['batch-aborted'] += 1
                 self.problems.append('the iteration of instance %d ended with %s: %s'
                                      % (inst.idx, type(a.exc).__name__, str(a.exc)[:200]))
+            elif inst.ids and len(inst.good) < len(inst.ids):
+                self.stats['batch-with-unpreparable-call-finished'] += 1
+                if inst.good and inst.done == len(inst.good):
+                    self.stats['unpreparable-call-skipped-others-invoked'] += 1
             inst.actor = None
-            inst.ids, inst.done, inst.at = [], 0, None
+            inst.ids, inst.good, inst.done, inst.at = [], [], 0, None
 
     def _resume(self, i, label):
         if i >= len(self.insts):
@@ -353,7 +371,7 @@ class LWorld(object):
             inst.actor.destroy()
         inst.actor = None
         inst.sel = None
-        inst.ids, inst.done, inst.at = [], 0, None
+        inst.ids, inst.good, inst.done, inst.at = [], [], 0, None
         inst.alive = False
 
     # ------------------------------------------------------------ observation
@@ -401,7 +419,8 @@ class LWorld(object):
         if a is None:
             return ['idle'] if inst.sel is None else ['selected', self.sel_ids(inst)]
         if a.label == 'invoke':
-            return ['busy', list(inst.ids), list(inst.ids[inst.done:])]
+            # todo = the captured calls that could be prepared and are not invoked yet
+            return ['busy', list(inst.ids), list(inst.good[inst.done:])]
         if a.label == 'delete':
             return ['busy', list(inst.ids), []]
         return ['parked-at-' + str(a.label)]
@@ -436,9 +455,9 @@ def _install_target(world):
         inst = a.inst if a is not None else None
         if inst is not None:
             inst.at = j
-            if inst.done >= len(inst.ids) or inst.ids[inst.done] != j:
-                w.problems.append('instance %d invokes call %r, the next captured one is %r'
-                                  % (inst.idx, j, inst.ids[inst.done:inst.done + 1]))
+            if inst.done >= len(inst.good) or inst.good[inst.done] != j:
+                w.problems.append('instance %d invokes call %r, the next captured preparable one is %r'
+                                  % (inst.idx, j, inst.good[inst.done:inst.done + 1]))
             a.park('invoke')
         w.log.append(['invoked', j, w.clock, inst.idx if inst is not None else None])
         if inst is not None:
@@ -502,7 +521,7 @@ class LRunner(object):
             inst = w.insts[step[1]]
             if inst.alive and inst.actor is not None:
                 self.mech['crash-with-captured-work'] += 1
-                if inst.done < len(inst.ids):
+                if inst.done < len(inst.good):
                     self.mech['crash-before-invocation'] += 1
         if k == 'select' and step[1] < len(w.insts) and w.phase(w.insts[step[1]]) == 'idle':
             if any(j['fate'] != 'commit' for j in w.jobs):
@@ -576,6 +595,9 @@ class LRunner(object):
                          {'kind': 'legacy-unscheduled-call-invoked'})
                 continue
             job = w.jobs[j]
+            if job['bad']:
+                self.hit('call %d, whose target cannot be imported, was invoked' % j,
+                         {'kind': 'legacy-unpreparable-call-invoked'})
             if t < job['sched_at'] + job['ra']:
                 self.hit('call %d scheduled at %d with run_after %d was invoked at %d'
                          % (j, job['sched_at'], job['ra'], t), {'kind': 'legacy-invoked-early'})
@@ -601,7 +623,8 @@ class LRunner(object):
             self.hit('delayed call(s) %s captured more than once' % sorted(j for j, c in ccnt.items() if c > 1),
                      {'kind': 'legacy-captured-twice'})
         for o, job in enumerate(w.jobs):
-            if job['state'] == 'committed' and o not in rows and cnt.get(o, 0) == 0:
+            # a call that cannot be prepared is logged and dropped (deleted without an invocation)
+            if job['state'] == 'committed' and o not in rows and cnt.get(o, 0) == 0 and not job['bad']:
                 self.hit('committed call %d is neither stored nor invoked' % o,
                          {'kind': 'legacy-committed-job-lost'})
         for k in KEYS:
@@ -629,7 +652,8 @@ class LRunner(object):
     def closing(self):
         """Fairness: every open transaction ends, every live instance finishes its iteration and
         a live instance keeps polling; then every committed call must have run (at least once /
-        crash recovery)."""
+        crash recovery) and every committed call that cannot be prepared must be gone from the store
+        if a live instance captured it (dropped with its batch, not kept processing=True for ever)."""
         w = self.w
         for tx in sorted(set(j['tx'] for j in w.jobs if j['state'] == 'uncommitted')):
             fate = [j['fate'] for j in w.jobs if j['tx'] == tx and j['state'] == 'uncommitted'][0]
@@ -648,19 +672,29 @@ class LRunner(object):
             if len(w.caps) == before:
                 break
         cnt = collections.Counter(e[1] for e in w.log)
+        rows = w.rows()
         for o, j in enumerate(w.jobs):
-            if j['state'] != 'committed' or cnt.get(o, 0):
+            if j['state'] != 'committed':
+                continue
+            if j['bad']:
+                # its target cannot be imported: nobody can invoke it, but the live instance that
+                # captured it (every live instance has finished its iteration) must have dropped it
+                livecap = [e[3] for e in w.caps if e[1] == o and 0 <= e[3] < len(w.insts) and w.insts[e[3]].alive]
+                if o in rows and livecap:
+                    self.hit('committed call %d, whose target cannot be imported, was captured by live instance %d '
+                             'which finished its iteration, and is still in the store (processing=%s): it is never '
+                             'removed' % (o, livecap[0], rows[o][1]), dict(STUCK_SIG))
+                continue
+            if cnt.get(o, 0):
                 continue
             dead = [e[3] for e in w.caps if e[1] == o and not w.insts[e[3]].alive]
-            if j['bad']:
-                continue       # its target cannot be imported: nobody can invoke it
-            batch = [b for b in w.aborted if o in b]
+            batch = [b for b in w.aborted if o in b and any(w.is_bad(x) for x in b)]
             if batch:
                 self.mech['valid-call-stranded-by-aborted-batch'] += 1
                 self.hit('committed call %d was captured in one batch with call(s) %s whose target cannot be '
                          'imported: _prepare_calls raised, the whole batch stays processing=True for ever and '
                          'call %d is never run although live instance %d kept polling'
-                         % (o, [x for x in batch[0] if w.jobs[x]['bad']], o, i), dict(ABORT_SIG))
+                         % (o, [x for x in batch[0] if w.is_bad(x)], o, i), dict(ABORT_SIG))
             elif dead:
                 self.mech['captured-call-never-run'] += 1
                 self.hit('committed call %d was captured by instance %d which died; it stays processing=True '
@@ -673,10 +707,10 @@ class LRunner(object):
 
     def nontrivial(self):
         m = self.mech
-        return bool(m['valid-call-stranded-by-aborted-batch'] or
+        return bool(self.w.stats['unpreparable-call-skipped-others-invoked'] or
+                    m['valid-call-stranded-by-aborted-batch'] or
                     self.w.log and (self.w.stats['cas-lost'] or m['crash-with-captured-work'] or
-                                    m['two-instances-selected'] or m['select-with-rolled-back-call'] or
-                                    self.w.stats['batch-aborted']))
+                                    m['two-instances-selected'] or m['select-with-rolled-back-call']))
 
     def report(self, closed):
         ctx, st = self.ctx, self.stream
@@ -684,7 +718,10 @@ class LRunner(object):
             ctx.count(st, 'step:' + s[0])
         mech = collections.Counter(self.mech)
         mech['cas-lost'] = self.w.stats['cas-lost']
-        mech['batch-aborted-by-unpreparable-call'] = self.w.stats['batch-aborted']
+        mech['iteration-ended-with-exception'] = self.w.stats['batch-aborted']
+        mech['batch-with-unpreparable-call'] = self.w.stats['batch-with-unpreparable-call']
+        mech['batch-with-unpreparable-call-finished'] = self.w.stats['batch-with-unpreparable-call-finished']
+        mech['unpreparable-call-skipped-others-invoked'] = self.w.stats['unpreparable-call-skipped-others-invoked']
         mech['invocation'] = len(self.w.log)
         for k, v in mech.items():
             if v:
@@ -790,10 +827,15 @@ CORPUS = [
     # not yet due / due exactly at execution_time (time_filter = now + 1s, strict <)
     (1, None, [['schedule', 2, 1, 0, 'commit'], ['commit', 0], ['tick', 1], ['select', 0], ['capture', 0],
                ['tick', 1], ['select', 0], ['capture', 0], ['invoke', 0], ['delete', 0]]),
-    # a call whose target cannot be imported strands the valid call captured in the same batch
-    # (witness of legacy_bad_target_strands_batch)
+    # regression of patch 17: a call whose target cannot be imported is captured in one batch with a valid call:
+    # it is logged and skipped, the valid call is invoked, both rows are deleted (before the patch
+    # _prepare_calls raised after the capture had been committed and stranded the whole batch)
     (1, None, [['schedule', 0, 1, 0, 'commit'], ['scheduleBad', 0, 1, 1, 'commit'], ['commit', 0], ['commit', 1],
-               ['select', 0], ['capture', 0], ['tick', 5], ['select', 0], ['capture', 0]]),
+               ['select', 0], ['capture', 0], ['invoke', 0], ['delete', 0], ['tick', 5], ['select', 0],
+               ['capture', 0]]),
+    # a batch of un-preparable calls only: nothing to invoke, the rows are deleted
+    (1, None, [['scheduleBad', 0, 1, 0, 'commit'], ['scheduleBad', 0, 2, 0, 'commit'], ['commit', 0], ['select', 0],
+               ['capture', 0], ['delete', 0], ['select', 0], ['capture', 0]]),
     # two calls captured by one iteration, crash between the two invocations
     (2, None, [['schedule', 0, 1, 0, 'commit'], ['schedule', 0, 1, 0, 'commit'], ['commit', 0], ['select', 0],
                ['capture', 0], ['invoke', 0], ['crash', 0], ['select', 1], ['capture', 1]]),
